@@ -129,7 +129,7 @@ Proof.
     destruct (cwd k) as [[h]|]; [|split; [reflexivity| exists (-1), 0, 0, 0, [], false; reflexivity]].
     destruct (h_load_dents w h) as [names|]; [|split; [reflexivity| exists (-1), 0, 0, 0, [], false; reflexivity]].
     destruct (next_entry c w (hrel h) names) as [[[nm fi]|] rest]; cbn [o_out o_close done]; split; try reflexivity.
-    + exists (eff_size fi), (fi_mtime fi), masked_time, masked_time, nm, (fi_dir fi). reflexivity.
+    + exists (eff_size fi), (fi_mtime fi), masked_ctime, masked_atime, nm, (fi_dir fi). reflexivity.
     + exists (-1), 0, 0, 0, [], false; reflexivity.
   - (* STAT *)
     repeat break_match; cbn [o_out o_close done]; split; try reflexivity; enc_len.
